@@ -970,14 +970,23 @@ def probes(ck, exe):
                                      "qARS 2 -1/1 0/1 0 -3/1 1/3 2 0 1/1" + "0" * 400 + " 1 1/1"]}
     cases.append(uflow)
     # DESIGN.md section 9 item 8: after a floating-point solve with persistent scaling the real LP is stored scaled; the
-    # copy made for an exact solve in SYNCMODE_ONLYREAL must still be the LP the accessors report
-    scaled = {"head": "0 -1 2 1", "ops": ["rAC %s %s %s 0" % (d1, d0, inf), "rAC %s %s %s 0" % (d1, d0, dy(10)),
-                                          "rAR %s %s 2 0 %s 1 %s" % (d1, inf, dy(1000), d1), "rAR %s %s 2 0 %s 1 %s" % (dy(2), inf, d1, dy(3)),
-                                          "OPT 0", "XS"]}
+    # copy made for an exact solve in SYNCMODE_ONLYREAL (optimize()), and the copy made by setIntParam(SYNCMODE, AUTO), must
+    # still be the LP the accessors report
+    sc_ops = ["rAC %s %s %s 0" % (d1, d0, inf), "rAC %s %s %s 0" % (d1, d0, dy(10)),
+              "rAR %s %s 2 0 %s 1 %s" % (d1, inf, dy(1000), d1), "rAR %s %s 2 0 %s 1 %s" % (dy(2), inf, d1, dy(3)), "OPT 0"]
+    scaled = {"head": "0 -1 2 1", "ops": sc_ops + ["OPT 2"]}
+    scaled2 = {"head": "0 -1 2 1", "ops": sc_ops + ["M 1"]}
     cases.append(scaled)
+    cases.append(scaled2)
     base_p = os.path.join(vlib.BUILD, "run", "C07.%d.probe.cases" % os.getpid())
-    write_cases(base_p, cases)
-    rc, out, err = vlib.sh([exe, "run", base_p], timeout=600)
+    out = ""
+    for c in cases:
+        write_cases(base_p, [c])
+        rc, o1, err = vlib.sh([exe, "run", base_p], timeout=600)
+        out += o1 if o1.startswith("CASE ") else "CASE 0\n"
+        if rc != 0:
+            ck.violation("crash:probe:" + c["ops"][-1].split()[0], "the implementation crashed in a probe history (rc=%d): %s" % (rc, c["ops"]),
+                         {"head": c["head"], "ops": c["ops"], "stderr": err[-1500:]})
     os.remove(base_p)
     for c, b in zip(cases, blocks(out)):
         for j, line in enumerate(b):
@@ -985,13 +994,14 @@ def probes(ck, exe):
             if o.mode is None:
                 continue
             ck.evaluated(("probe", c["ops"][j - 1] if j else "init"))
-            if c is scaled:
-                if o.op == "XS":
+            if c is scaled or c is scaled2:
+                if j == len(c["ops"]) and o.Q is not None:
                     f = exact_copy_failures(o)
                     if f:
-                        ck.violation("onlyreal-sync-copies-scaled-lp",
-                                     "after a floating-point solve with persistent scaling, _syncLPRational (SYNCMODE_ONLYREAL, before an exact "
-                                     "solve) copies the scaled LP: the rational LP differs from the LP the real accessors report in %s" % f,
+                        ck.violation("onlyreal-sync-copies-scaled-lp:" + ("exact-solve" if c is scaled else "syncmode-auto"),
+                                     "after a floating-point solve with persistent scaling, _syncLPRational (%s) copies the scaled LP: "
+                                     "the rational LP differs from the LP the real accessors report in %s" %
+                                     ("before the exact solve in SYNCMODE_ONLYREAL" if c is scaled else "setIntParam(SYNCMODE, AUTO) from ONLYREAL", f),
                                      {"head": c["head"], "ops": c["ops"][:j], "implementation": line[:3000], "failure": f})
                 continue
             if c is uflow:
@@ -1010,8 +1020,7 @@ def probes(ck, exe):
                              "addRowRational/addColRational(const mpq_t*) with an explicit zero value: %s after %s" % (f[:2], c["ops"][:j]),
                              {"head": c["head"], "ops": c["ops"][:j], "implementation": line[:3000], "failure": f})
                 break
-    if rc != 0:
-        ck.violation("crash:probe", "the implementation crashed in a probe history (rc=%d)" % rc, {"stderr": err[-1500:]})
+
 
 def corpus_cases():
     """minimal histories of the recorded findings and of every sync-mode transition (run first)"""
